@@ -1,2 +1,4 @@
 import Model.Cache.LFU
 import Model.Cache.LFUWire
+import Model.Pickle.VM
+import Model.Pickle.Wire
